@@ -160,3 +160,67 @@ func (d *dumper) val(v reflect.Value, depth int) {
 }
 
 var _ = unsafe.Pointer(nil)
+
+// Leaves flattens a value into path -> scalar (struct field names, sorted map keys, slice indices; pointers and
+// interfaces followed; funcs and channels by kind only). Two values of the same shape have the same paths.
+func Leaves(v interface{}) map[string]string {
+	out := map[string]string{}
+	var walk func(v reflect.Value, path string, depth int)
+	walk = func(v reflect.Value, path string, depth int) {
+		if !v.IsValid() || depth > 40 {
+			out[path] = "nil"
+			return
+		}
+		switch v.Kind() {
+		case reflect.Ptr, reflect.Interface:
+			if v.IsNil() {
+				out[path] = "nil"
+				return
+			}
+			walk(v.Elem(), path, depth+1)
+		case reflect.Struct:
+			t := v.Type()
+			for i := 0; i < v.NumField(); i++ {
+				walk(v.Field(i), path+"."+t.Field(i).Name, depth+1)
+			}
+		case reflect.Slice, reflect.Array:
+			out[path+"#len"] = strconv.Itoa(v.Len())
+			for i := 0; i < v.Len(); i++ {
+				walk(v.Index(i), path+"["+strconv.Itoa(i)+"]", depth+1)
+			}
+		case reflect.Map:
+			it := v.MapRange()
+			for it.Next() {
+				var kb strings.Builder
+				kd := dumper{b: &kb, seen: map[uintptr]bool{}}
+				kd.val(it.Key(), 0)
+				walk(it.Value(), path+"{"+kb.String()+"}", depth+1)
+			}
+		case reflect.Func, reflect.Chan, reflect.UnsafePointer:
+			out[path] = v.Kind().String()
+		default:
+			out[path] = Dump(valueInterface(v))
+		}
+	}
+	walk(reflect.ValueOf(v), "", 0)
+	return out
+}
+
+// valueInterface reads a (possibly unexported) scalar field.
+func valueInterface(v reflect.Value) interface{} {
+	switch v.Kind() {
+	case reflect.Bool:
+		return v.Bool()
+	case reflect.Int, reflect.Int8, reflect.Int16, reflect.Int32, reflect.Int64:
+		return v.Int()
+	case reflect.Uint, reflect.Uint8, reflect.Uint16, reflect.Uint32, reflect.Uint64, reflect.Uintptr:
+		return v.Uint()
+	case reflect.Float32, reflect.Float64:
+		return v.Float()
+	case reflect.String:
+		return v.String()
+	case reflect.Complex64, reflect.Complex128:
+		return v.Complex()
+	}
+	return "<" + v.Kind().String() + ">"
+}
